@@ -51,6 +51,11 @@ Definition check_pcase16 (c : pcase16) : bool :=
         (fun i j => qiadd (matl Y i j) (qimul eps (mmul (pm c) (cj (matl A)) (matl B) i j))) (pres c)
   end.
 
+(* Auto rules: observed algorithm for operators below the size threshold *)
+Definition check_auto16 (small : bool) (svd_dense_seen pinv_lstsq_seen : bool) : bool :=
+  (match auto_svd small with SDense => svd_dense_seen | _ => negb svd_dense_seen end) &&
+  (match auto_pinv small with PLstsq => pinv_lstsq_seen | _ => negb pinv_lstsq_seen end).
+
 (* ---------- refutation witnesses ---------- *)
 (* svd(Diagonal([-1, 2])): Sigma = A has a negative entry *)
 Theorem svd_diag_negative_refuted :
